@@ -156,16 +156,16 @@ def impl(case):
     a = case["args"]
     fn = case["fn"]
     if fn == "get_region":
-        e = C.mkarr(a[0], a[2], case["op"])
-        n = C.mkarr(a[1], a[2], case["op"])
+        e = C.mkarr(a[0], a[2], "a[0]:" + case["op"])
+        n = C.mkarr(a[1], a[2], "a[1]:" + case["op"])
         e0, n0 = e.copy(), n.copy()
         r = C.call(vd.get_region, (e, n, np.zeros_like(e)))
         if not (np.array_equal(e, e0) and np.array_equal(n, n0)):
             return ["err", "MutatedInput"]
         return r if C.is_err(r) else [float(v) for v in r]
     if fn == "inside":
-        e = C.mkarr(a[1], a[3], case["op"])
-        n = C.mkarr(a[2], a[3], case["op"])
+        e = C.mkarr(a[1], a[3], "a[1]:" + case["op"])
+        n = C.mkarr(a[2], a[3], "a[2]:" + case["op"])
         e.setflags(write=False)
         n.setflags(write=False)
         r = C.call(vd.inside, (e, n), a[0])
